@@ -96,6 +96,10 @@ func getOpIDs(s *spec.Swagger) map[string]bool {
 		piops := pathItemOps(v)
 
 		for _, op := range piops {
+			if op.ID == "" {
+				continue
+			}
+
 			rv[op.ID] = true
 		}
 	}
@@ -198,6 +202,11 @@ func mergePaths(primary *spec.Swagger, m *spec.Swagger, opIDs map[string]bool, m
 			// all the proivded specs are already unique.
 			piops := pathItemOps(v)
 			for _, piop := range piops {
+				if piop.ID == "" {
+					// operations without ID cannot conflict
+					continue
+				}
+
 				if opIDs[piop.ID] {
 					piop.ID = fmt.Sprintf("%v%v%v", piop.ID, "Mixin", mixIndex)
 				}
